@@ -116,9 +116,11 @@ fn main() {
 fn replay_one(toks: &[&str]) -> String {
     match toks[0] {
         "C11" => {
-            let fmt: u32 = toks[1].parse().unwrap();
+            let mut ft = toks[1].split('@');
+            let fmt: u32 = ft.next().unwrap().parse().unwrap();
+            let order: usize = ft.next().map(|o| o.parse().unwrap()).unwrap_or(0);
             let cs: Vec<String> = toks[2][1..].split(',').map(|s| s.to_string()).collect();
-            c11::observe(fmt, &cs)
+            c11::observe_o(fmt, order, &cs)
         }
         "C06" => {
             let scratch = common::scratch_root().join("c06r");
